@@ -574,8 +574,12 @@ impl<E: Effect, R: CommandReceiver<E>, S: EventSender<E>> Worker<E, R, S> {
                     .map_err(|e| EnvironmentError::HeapData(format!("{:?}", e)))?;
             }
             Err(error) => {
-                // Set the process result to the error and clear frames to complete it
-                if let Some(process) = self.executor.get_process_mut(awaiter) {
+                // Set the process result to the error and clear frames to complete it - but only
+                // while the awaiter's open select still lists the failed process. An awaiter
+                // whose select has already completed through another source has moved on.
+                if let Some(process) = self.executor.get_process_mut(awaiter)
+                    && process.awaiting.contains_key(&awaited)
+                {
                     process.result = Some(Err(error));
                     process.frames.clear(); // Complete the process
                 }
